@@ -7,6 +7,8 @@
 import CB.Props.C03
 import CB.Lemmas.GenBitsMul
 import CB.Lemmas.GenMulRows
+import CB.Lemmas.GenMulSq
+import CB.Lemmas.GenMulAdc
 namespace CB.P03G
 open CB
 
@@ -106,6 +108,144 @@ example : Gen.MulRows.schoolbook_multiplication [~~~0#64, ~~~0#64] [~~~0#64] [0#
     ([1#64, ~~~0#64], [~~~0#64 - 1#64]) := by decide
 example : Gen.MulRows.schoolbook_multiplication [3#64] [5#64, 7#64] [0#64] [0#64, 0#64] = ([15#64], [21#64, 0#64]) := by decide
 example : Gen.MulRows.Limb.saturating_mul (~~~0#64) 2#64 = ~~~0#64 ∧ Gen.MulRows.Limb.saturating_mul 3#64 5#64 = 15#64 := by decide
+
+
+/-! ## T03.G3 — the SOURCE of the squaring: `schoolbook_squaring` (src/uint/mul.rs) with `Limb::{overflowing_add, shr}`
+(src/limb/add.rs, src/limb/shr.rs), regenerated on every run (tools/translate.py → CB/Gen/MulRows.lean)
+
+`Gen.MulRows.schoolbook_squaring limbs lo hi` RETURNS the final `(lo, hi)`.  Its five `while` loops are five recursive
+auxiliary definitions: `_loop1` the off-diagonal rows from `i = 1` (calling `_loop2`, the inner `while j < i` — the bound is
+the outer counter), `_loop3` / `_loop4` the doubling of `lo` and of all but the top limb of `hi` with one running carry
+(`(lo[i].0, carry) = ((lo[i].0 << 1) | carry.0, lo[i].shr(Limb::BITS - 1))`, then `hi[limbs.len() - 1] = carry`), `_loop5` the
+diagonal (`mac(xi, xi, carry)` at `2i`, `overflowing_add(carry)` at `2i + 1`, each on `lo` or `hi` by its own index test; the
+final carry is dropped).  The source's guard `if limbs.len() != lo.len() || lo.len() != hi.len() { panic!(..) }` holds for the
+buffers below.  For EVERY limb count. -/
+
+/-- `Limb::overflowing_add` of the source is the model's `overflowingAdd`; `Limb::shr` is the word shift (amount mod 64) -/
+theorem src_limb_sq (a b : BitVec 64) (s : BitVec 32) :
+    CB.overflowingAdd a.toNat b.toNat =
+      ((Gen.MulRows.LimbSq.overflowing_add a b).1.toNat, (Gen.MulRows.LimbSq.overflowing_add a b).2.toNat) ∧
+    Gen.MulRows.LimbSq.shr a s = a >>> (s % 64#32) := by
+  rw [GenBits.limb_overflowing_add_eq]
+  exact ⟨GenBits.overflowingAdd_bridge a b, GenBits.limb_shr_eq a s⟩
+
+/-- the hand-written squaring model (`schoolbookSquare` = `sqRows`, `shl1Loop`, `sqDiagLoop` on the one buffer `lo ++ hi`;
+    `uintSquareLimbs` — what T03.3 and every squaring form above it are proved about) IS the translated source on the
+    zeroed buffers `uint_square_limbs` / `square_limbs` pass, for every limb count -/
+theorem sq_model_is_translated_source (a : List (BitVec 64)) :
+    Mul.schoolbookSquare (GenChains.nats a) =
+      GenChains.nats ((Gen.MulRows.schoolbook_squaring a (List.replicate a.length 0#64) (List.replicate a.length 0#64)).1 ++
+        (Gen.MulRows.schoolbook_squaring a (List.replicate a.length 0#64) (List.replicate a.length 0#64)).2) ∧
+    Mul.uintSquareLimbs (GenChains.nats a) =
+      (GenChains.nats (Gen.MulRows.schoolbook_squaring a (List.replicate a.length 0#64) (List.replicate a.length 0#64)).1,
+       GenChains.nats (Gen.MulRows.schoolbook_squaring a (List.replicate a.length 0#64) (List.replicate a.length 0#64)).2) :=
+  ⟨(GenMulSq.schoolbookSquare_bridge a).1, GenMulSq.uintSquareLimbs_bridge a⟩
+
+/-- **T03.3 about the source**: the TRANSLATED `schoolbook_squaring`, called as `uint_square_limbs` and `square_limbs` call
+    it (`lo`, `hi` = `limbs.len()` zero limbs each), returns the exact square of ANY limb list, of any limb count:
+    `val lo' + B^n · val hi' = (val a)²`, `|lo'| = |hi'| = n`.  From `uint_square_limbs_exact` + the bridge. -/
+theorem src_schoolbook_squaring_exact (a : List (BitVec 64)) :
+    val (GenChains.nats (Gen.MulRows.schoolbook_squaring a (List.replicate a.length 0#64) (List.replicate a.length 0#64)).1) +
+        B ^ a.length *
+          val (GenChains.nats (Gen.MulRows.schoolbook_squaring a (List.replicate a.length 0#64) (List.replicate a.length 0#64)).2) =
+      val (GenChains.nats a) * val (GenChains.nats a) ∧
+    (Gen.MulRows.schoolbook_squaring a (List.replicate a.length 0#64) (List.replicate a.length 0#64)).1.length = a.length ∧
+    (Gen.MulRows.schoolbook_squaring a (List.replicate a.length 0#64) (List.replicate a.length 0#64)).2.length = a.length := by
+  have h := P03.uint_square_limbs_exact (GenChains.nats a) (GenChains.nats_WF a)
+  rw [GenMulSq.uintSquareLimbs_bridge] at h
+  obtain ⟨_, _, h3, h4, h5⟩ := h
+  simp only [GenChains.nats_length] at h3 h4 h5
+  exact ⟨h5, h3, h4⟩
+
+/-- the translated squaring and the translated multiplication of `a` by itself return the same limbs -/
+theorem src_squaring_eq_mul_self (a : List (BitVec 64)) :
+    GenChains.nats ((Gen.MulRows.schoolbook_squaring a (List.replicate a.length 0#64) (List.replicate a.length 0#64)).1 ++
+        (Gen.MulRows.schoolbook_squaring a (List.replicate a.length 0#64) (List.replicate a.length 0#64)).2) =
+      GenChains.nats ((Gen.MulRows.schoolbook_multiplication a a (List.replicate a.length 0#64) (List.replicate a.length 0#64)).1 ++
+        (Gen.MulRows.schoolbook_multiplication a a (List.replicate a.length 0#64) (List.replicate a.length 0#64)).2) := by
+  rw [← (GenMulSq.schoolbookSquare_bridge a).1, ← GenMulRows.schoolbookMul_bridge a a]
+  exact P03.schoolbook_square_eq_mul_self (GenChains.nats a) (GenChains.nats_WF a)
+
+example : Gen.MulRows.schoolbook_squaring [~~~0#64, ~~~0#64] [0#64, 0#64] [0#64, 0#64] =
+    ([1#64, 0#64], [~~~0#64 - 1#64, ~~~0#64]) := by decide
+example : Gen.MulRows.schoolbook_squaring [3#64, 5#64, 7#64] [0#64, 0#64, 0#64] [0#64, 0#64, 0#64] =
+    ([9#64, 30#64, 67#64], [70#64, 49#64, 0#64]) := by decide
+
+
+/-! ## T03.G4 — the SOURCE of the const-generic wrappers `uint_mul_limbs` / `uint_square_limbs` (src/uint/mul.rs) and of the
+boxed row accumulate `adc_mul_limbs` (src/uint/mul/karatsuba.rs, a non-`const` fn), regenerated on every run
+(tools/translate.py → CB/Gen/MulRows.lean, namespaces `Wrap` and `Karatsuba`)
+
+`Gen.MulRows.Wrap.uint_mul_limbs LIMBS RHS_LIMBS lhs rhs`: both const generics are explicit `Nat` arguments; `Uint::<LIMBS>::ZERO`
+/ `Uint::<RHS_LIMBS>::ZERO` are `List.replicate .. 0#64`; the STATEMENT call `schoolbook_multiplication(lhs, rhs, &mut lo.limbs,
+&mut hi.limbs);` writes the returned slices back to `lo`, `hi`; the result is `(lo, hi)`.  Its `debug_assert!(lhs.len() == LIMBS &&
+rhs.len() == RHS_LIMBS)` is the instantiation below.  `Gen.MulRows.Karatsuba.adc_mul_limbs lhs rhs out` RETURNS `(out', carry)`
+(the final `&mut [Limb]` in front of the result); the guard `if lhs.len() + rhs.len() != out.len() { panic!(..) }` is the
+precondition. -/
+
+/-- the models `uintMulLimbs`, `uintSquareLimbs`, `adcMulLimbs` ARE the translated wrappers / row accumulate -/
+theorem wrap_model_is_translated_source (a b out : List (BitVec 64)) (hl : out.length = a.length + b.length) :
+    Mul.uintMulLimbs (GenChains.nats a) (GenChains.nats b) =
+      (GenChains.nats (Gen.MulRows.Wrap.uint_mul_limbs a.length b.length a b).1,
+       GenChains.nats (Gen.MulRows.Wrap.uint_mul_limbs a.length b.length a b).2) ∧
+    Mul.uintSquareLimbs (GenChains.nats a) =
+      (GenChains.nats (Gen.MulRows.Wrap.uint_square_limbs a.length a).1,
+       GenChains.nats (Gen.MulRows.Wrap.uint_square_limbs a.length a).2) ∧
+    Mul.adcMulLimbs (GenChains.nats a) (GenChains.nats b) (GenChains.nats out) =
+      (GenChains.nats (Gen.MulRows.Karatsuba.adc_mul_limbs a b out).1, (Gen.MulRows.Karatsuba.adc_mul_limbs a b out).2.toNat) :=
+  ⟨GenMulAdc.uintMulLimbs_wrap_bridge a b, GenMulAdc.uintSquareLimbs_wrap_bridge a, (GenMulAdc.adcMulLimbs_bridge a b out hl).1⟩
+
+/-- **T03.2 about the source, at the wrapper**: the TRANSLATED `uint_mul_limbs::<|a|, |b|>(a, b)` returns `(lo, hi)` with
+    `val lo + B^|a| · val hi = val a · val b`, `|lo| = |a|`, `|hi| = |b|`, for ANY two limb lists -/
+theorem src_uint_mul_limbs_exact (a b : List (BitVec 64)) :
+    val (GenChains.nats (Gen.MulRows.Wrap.uint_mul_limbs a.length b.length a b).1) +
+        B ^ a.length * val (GenChains.nats (Gen.MulRows.Wrap.uint_mul_limbs a.length b.length a b).2) =
+      val (GenChains.nats a) * val (GenChains.nats b) ∧
+    (Gen.MulRows.Wrap.uint_mul_limbs a.length b.length a b).1.length = a.length ∧
+    (Gen.MulRows.Wrap.uint_mul_limbs a.length b.length a b).2.length = b.length := by
+  rw [GenBits.uint_mul_limbs_eq]
+  exact src_schoolbook_mul_exact a b
+
+/-- **T03.3 about the source, at the wrapper**: the TRANSLATED `uint_square_limbs::<|a|>(a)` returns the exact square -/
+theorem src_uint_square_limbs_exact (a : List (BitVec 64)) :
+    val (GenChains.nats (Gen.MulRows.Wrap.uint_square_limbs a.length a).1) +
+        B ^ a.length * val (GenChains.nats (Gen.MulRows.Wrap.uint_square_limbs a.length a).2) =
+      val (GenChains.nats a) * val (GenChains.nats a) ∧
+    (Gen.MulRows.Wrap.uint_square_limbs a.length a).1.length = a.length ∧
+    (Gen.MulRows.Wrap.uint_square_limbs a.length a).2.length = a.length := by
+  rw [GenBits.uint_square_limbs_eq]
+  exact src_schoolbook_squaring_exact a
+
+/-- **T03.7 (row accumulate) about the source**: the TRANSLATED `adc_mul_limbs(a, b, out)` adds the product to ANY accumulator
+    of `|a| + |b|` limbs exactly: `val out' + B^|out| · carry = val out + val a · val b`, `carry ≤ 1`, `|out'| = |out|`, for
+    every pair of limb counts.  From `adc_mul_limbs_exact` + the bridge. -/
+theorem src_adc_mul_limbs_exact (a b out : List (BitVec 64)) (hl : out.length = a.length + b.length) :
+    val (GenChains.nats (Gen.MulRows.Karatsuba.adc_mul_limbs a b out).1) +
+        B ^ out.length * (Gen.MulRows.Karatsuba.adc_mul_limbs a b out).2.toNat =
+      val (GenChains.nats out) + val (GenChains.nats a) * val (GenChains.nats b) ∧
+    (Gen.MulRows.Karatsuba.adc_mul_limbs a b out).2.toNat ≤ 1 ∧
+    (Gen.MulRows.Karatsuba.adc_mul_limbs a b out).1.length = out.length := by
+  have h := P03.adc_mul_limbs_exact (GenChains.nats a) (GenChains.nats b) (GenChains.nats out) (GenChains.nats_WF a)
+    (GenChains.nats_WF b) (GenChains.nats_WF out) (by simp only [GenChains.nats_length]; exact hl)
+  rw [(GenMulAdc.adcMulLimbs_bridge a b out hl).1] at h
+  obtain ⟨h1, _, _, h4⟩ := h
+  simp only [GenChains.nats_length] at h1
+  exact ⟨h1, h4, (GenMulAdc.adcMulLimbs_bridge a b out hl).2⟩
+
+/-- on a zeroed accumulator (the fallback of `karatsuba_mul_limbs`): the exact product, carry 0 -/
+theorem src_adc_mul_limbs_zero_exact (a b : List (BitVec 64)) :
+    val (GenChains.nats (Gen.MulRows.Karatsuba.adc_mul_limbs a b (List.replicate (a.length + b.length) 0#64)).1) =
+      val (GenChains.nats a) * val (GenChains.nats b) ∧
+    (Gen.MulRows.Karatsuba.adc_mul_limbs a b (List.replicate (a.length + b.length) 0#64)).2 = 0#64 := by
+  have h := P03.adc_mul_limbs_zero_exact (GenChains.nats a) (GenChains.nats b) (GenChains.nats_WF a) (GenChains.nats_WF b)
+  have e : uzero ((GenChains.nats a).length + (GenChains.nats b).length) =
+      GenChains.nats (List.replicate (a.length + b.length) 0#64) := by
+    simp only [GenChains.nats, uzero, List.map_replicate, List.length_map]; rfl
+  rw [e, (GenMulAdc.adcMulLimbs_bridge a b _ (by simp)).1] at h
+  exact ⟨h.1, BitVec.eq_of_toNat_eq h.2⟩
+
+example : Gen.MulRows.Wrap.uint_mul_limbs 1 2 [3#64] [5#64, 7#64] = ([15#64], [21#64, 0#64]) := by decide
+example : Gen.MulRows.Karatsuba.adc_mul_limbs [~~~0#64] [~~~0#64] [~~~0#64, ~~~0#64] = ([0#64, ~~~0#64 - 1#64], 1#64) := by decide
 
 
 end CB.P03G
